@@ -60,6 +60,8 @@ type answer struct {
 	Diff []string `json:"diff,omitempty"`
 	Res  string   `json:"res,omitempty"`
 	Info string   `json:"info,omitempty"`
+	// Mutated: memory reachable from the shared Program / the internals of a shared Symbol changed
+	Mutated bool `json:"mutated,omitempty"`
 }
 
 var caseNo int
@@ -110,7 +112,16 @@ func runOne(vm *goja.Runtime, prg *goja.Program) (res string) {
 	if v == nil {
 		return "nil"
 	}
-	return "value:" + common.OneLine(v.String())
+	res = "value:" + common.OneLine(v.String())
+	// what promise jobs (run when RunProgram returns) left behind, by convention in the global __late
+	if late, err := vm.RunString("typeof __late === 'undefined' ? '' : JSON.stringify(__late)"); err == nil {
+		if ls := late.String(); ls != "" {
+			res += " late:" + common.OneLine(ls)
+		}
+	} else {
+		res += " late-error:" + common.OneLine(err.Error())
+	}
+	return res
 }
 
 func concurrently(n int, f func(i int) string) []string {
@@ -159,6 +170,7 @@ func runProg(c *tcase) answer {
 	}
 	n := clamp(c.N, 2, 16)
 	reps := clamp(c.Reps, 1, 8)
+	digest0 := goja.VerifC16ProgramDigest(prg) // everything reachable from the Program, right after Compile
 	// the goroutines run FIRST on the fresh Program (lazy state inside it, if any, is still unset), the sequential
 	// baseline afterwards in yet another Runtime
 	res := concurrently(n, func(i int) string {
@@ -173,6 +185,11 @@ func runProg(c *tcase) answer {
 	// an independently compiled Program is the "in isolation" reference
 	prg2, err2 := goja.Compile("case.js", c.Src, false)
 	a := answer{OK: true, Base: base}
+	if d := goja.VerifC16ProgramDigest(prg); d != digest0 {
+		a.OK = false
+		a.Mutated = true
+		a.Diff = append(a.Diff, "the Program's object graph changed while it was run (digest "+digest0[:12]+" -> "+d[:12]+")")
+	}
 	if err2 != nil {
 		a.OK = false
 		a.Diff = append(a.Diff, "second compile failed: "+err2.Error())
@@ -256,6 +273,9 @@ func mkVal(s *valSpec) (goja.Value, error) {
 		return goja.NaN(), nil
 	case "symbol":
 		return goja.NewSymbol(s.S), nil
+	case "wellknown": // package-level well-known symbols are shared by every Runtime of the process
+		w := goja.VerifC16WellKnownSymbols()
+		return w[int(s.I)%len(w)], nil
 	case "json": // result of JSON.stringify with non-ASCII content is an imported string made by another runtime
 		vm := goja.New()
 		v, err := vm.RunString("JSON.stringify(" + s.S + ")")
@@ -337,9 +357,19 @@ func runPrim(c *tcase) answer {
 	for _, v := range shared {
 		printRanges(goja.VerifC16ImportedRanges(v)) // the structs, before anything is scanned
 	}
+	symBefore := make([]string, len(shared))
+	for i, v := range shared {
+		symBefore[i] = goja.VerifC16SymbolDigest(v)
+	}
 	res := concurrently(n, func(i int) string { return runPrimOnce(prg, shared, i) })
 	for _, v := range shared {
 		printRanges(goja.VerifC16ImportedRanges(v)) // … and the memo arrays the run produced
+	}
+	symChanged := ""
+	for i, v := range shared {
+		if d := goja.VerifC16SymbolDigest(v); d != symBefore[i] {
+			symChanged = fmt.Sprintf("internals of shared symbol v%d changed: %s -> %s", i, symBefore[i], d)
+		}
 	}
 	sep, err := mkVals(c.Vals) // equal but separate values: "in isolation"
 	if err != nil {
@@ -347,6 +377,11 @@ func runPrim(c *tcase) answer {
 	}
 	base := runPrimOnce(prg, sep, 0)
 	a := answer{OK: true, Base: common.OneLine(base), Info: strings.Join(reprs, ",")}
+	if symChanged != "" {
+		a.OK = false
+		a.Mutated = true
+		a.Diff = append(a.Diff, symChanged)
+	}
 	for i, r := range res {
 		if strings.HasPrefix(r, "error:timeout") { // watchdog (overloaded machine): inconclusive
 			continue
